@@ -11,10 +11,12 @@ def Loadable (v : View) : Prop :=
       s.va + s.vs ≤ sizeOfImage v.b ∧ s.prd + s.rs ≤ v.b.size ∧ sizeOfHeaders v.b ≤ s.va) ∧
   v.secs.Pairwise (fun a b => a.va + a.vs ≤ b.va ∨ b.va + b.vs ≤ a.va)
 
-/-- additionally: raw ranges beyond the headers and pairwise disjoint, section table inside the headers -/
+/-- additionally: raw ranges beyond the headers and pairwise disjoint, section table inside the headers.
+A section without raw data (`SizeOfRawData = 0`, an ordinary `.bss` with `PointerToRawData = 0`)
+stores nothing: its `PointerToRawData` is not constrained. -/
 def LoadableFile (v : View) : Prop :=
   Loadable v ∧
-  (∀ s ∈ v.secs, sizeOfHeaders v.b ≤ s.prd) ∧
+  (∀ s ∈ v.secs, s.rs = 0 ∨ sizeOfHeaders v.b ≤ s.prd) ∧
   v.secs.Pairwise (fun a b => a.prd + a.rs ≤ b.prd ∨ b.prd + b.rs ≤ a.prd) ∧
   secTable v.b + 40 * numberOfSections v.b ≤ sizeOfHeaders v.b ∧
   ntEnd v.fmt v.b + 8 * numDataDirs v.fmt v.b ≤ sizeOfHeaders v.b
